@@ -94,6 +94,7 @@ fn public_reader(rep: &Report, case: Value, file: &[u8], r_sk: &[u8; 32], r_pk: 
 pub fn run(rep: &'static Report) {
     let seed = rep.seed;
     rep.set_rule("E-GRID: the full product of key-role assignments over K = {S, S', R, R'} for the real encryptor (4^4) and for the REF forger (roles x forging degrees), all 2^4 field mixes of pairs of authentic files, and all 52 special X25519 encodings as recipient and as ephemeral key; each point is one execution of the real key_encrypt/key_decrypt compared with the role model. distinct non-trivial = distinct tuples");
+    rep.rule_add("keyless reader on the CLI's output under every getrandom answer schedule; CLI keyring precedence (-k vs a decoy KESTREL_KEYRING) for encrypt and two decrypt cases.");
     rep.assume("key values from a seed-derived 4-key alphabet; DH hardness assumed (a forger cannot compute DH with a private key it does not hold)");
     let k = idents(seed);
     let p = b"c05 plaintext".to_vec();
